@@ -40,11 +40,18 @@ def lift(f, *vals):
 _SHAPE_ELEMENTWISE = ('floor', 'ceil', 'abs', 'round', 'rint', 'fix', 'negative', 'cast', 'm:astype', 'asarray', 'array', 'copy', 'trunc')
 
 
+# functions of the package whose result is a (row, col) pair
+_PAIR_RESULTS = ('call:util.centroid',)
+
+
 def _shape_vector_elem(v, i):
     """Item i of an expression that is element-wise in an un-indexed `.shape` (a sequence): floor(x.shape/2) meets the
     i-th item of a vector of known length as floor(x.shape[i]/2)."""
     if not isinstance(v, Poly) or v.const_value() is not None:
         return v
+    sa = v.single_atom()
+    if sa is not None and sa[0] == 'app' and sa[1] in _PAIR_RESULTS:
+        return nf.index(v, Poly.const(i))       # a (row, col) pair met by a vector of known length
     atoms = v.atoms(deep=True)
     sh = [a for a in atoms if a[0] == 'attr' and a[2] == 'shape']
     if not sh:
